@@ -1,17 +1,16 @@
 (* C19 — invalid inputs are rejected with ValueError instead of being solved; valid inputs are accepted.
    ONLY property theorems (closed by [exact]), their assumptions, and non-vacuity examples.
    Model: Validate.v — per exported graph/model class X a transcription [validate_X] of the validation path of the CURRENT
-   code (constructor + solve(), checks in code order, /repo at 65c87ad) and the documented domain [in_domain_X].  The
+   code (constructor + solve(), checks in code order, /repo at 003f186) and the documented domain [in_domain_X].  The
    validators are hand-written summaries (thin tie): what relates them to /repo is the malformed-stream correspondence
    harness/engines/c19.py.  The value of the theorems is the exhaustive case analysis in_domain <-> validate.
 
    For every class:   validate_sound     RaiseValueError => outside the documented domain
                       validate_complete  outside the domain => RaiseValueError; unconditional for stDAG, stDiGraph,
-                                         NodeExpandedDiGraph, MinErrorFlow; otherwise under [deviates_X i = false], which names
+                                         NodeExpandedDiGraph, MinErrorFlow, kPathCover, kPathCoverCycles; otherwise under [deviates_X i = false], which names
                                          exactly what is still OPEN: all weighted elements ignored (DESIGN #24, outside the
-                                         property's clause), a non-iterable item in an edge-list constraint of a node-weighted
-                                         model, a non-conserving flow for the cyclic flow decompositions, and an empty k-loop
-                                         of the Min* classes (only with a caller-supplied lower bound above |E|)
+                                         property's clause), a non-conserving flow for the cyclic flow decompositions, and an
+                                         empty k-loop of the Min* classes (only with a caller-supplied lower bound above |E|)
                       accepts_domain     inside the domain (+ a live weighted element) => Accept
    ValidateOld.v / ValidateOldRefuted.v keep the model of the code BEFORE the repairs (a068bcc) and the witnesses that it was
    not fail-closed; those [old_..._refuted] theorems are about explicitly named old-behaviour functions. *)
@@ -26,8 +25,7 @@ Local Close Scope Q_scope.
 Definition C19_full_statement (c : cls) : Prop :=
   forall i, (in_domain c i = false -> validate c i = RaiseValueError) /\
             (in_domain c i = true -> has_live i = true -> validate c i = Accept).
-(* the same for inputs on which the abstraction's two side conditions hold (the k-loop of a Min* class runs; no
-   node-mode edge-list constraint contains a non-iterable item) *)
+(* the same for inputs on which the abstraction's side condition holds (the k-loop of a Min* class runs) *)
 Definition C19_full_statement_regular (c : cls) : Prop :=
   forall i, regular i = true ->
             (in_domain c i = false -> validate c i = RaiseValueError) /\
@@ -129,7 +127,7 @@ Theorem C19_validate_sound_kPathCover : forall i, validate_kPathCover i = RaiseV
 Proof. exact validate_sound_kPathCover. Qed.
 Print Assumptions C19_validate_sound_kPathCover.
 
-Theorem C19_validate_complete_kPathCover : forall i, in_domain_kPathCover i = false -> deviates_kPathCover i = false -> validate_kPathCover i = RaiseValueError.
+Theorem C19_validate_complete_kPathCover : forall i, in_domain_kPathCover i = false -> validate_kPathCover i = RaiseValueError.
 Proof. exact validate_complete_kPathCover. Qed.
 Print Assumptions C19_validate_complete_kPathCover.
 
@@ -220,7 +218,7 @@ Theorem C19_validate_sound_kPathCoverCycles : forall i, validate_kPathCoverCycle
 Proof. exact validate_sound_kPathCoverCycles. Qed.
 Print Assumptions C19_validate_sound_kPathCoverCycles.
 
-Theorem C19_validate_complete_kPathCoverCycles : forall i, in_domain_kPathCoverCycles i = false -> deviates_kPathCoverCycles i = false -> validate_kPathCoverCycles i = RaiseValueError.
+Theorem C19_validate_complete_kPathCoverCycles : forall i, in_domain_kPathCoverCycles i = false -> validate_kPathCoverCycles i = RaiseValueError.
 Proof. exact validate_complete_kPathCoverCycles. Qed.
 Print Assumptions C19_validate_complete_kPathCoverCycles.
 
@@ -258,17 +256,17 @@ Theorem C19_full_MinErrorFlow : C19_full_statement CMinErrorFlow.
 Proof. exact full_MinErrorFlow. Qed.
 Print Assumptions C19_full_MinErrorFlow.
 
-Theorem C19_full_regular_kPathCover : C19_full_statement_regular CkPathCover.
-Proof. exact full_regular_kPathCover. Qed.
-Print Assumptions C19_full_regular_kPathCover.
+Theorem C19_full_kPathCover : C19_full_statement CkPathCover.
+Proof. exact full_kPathCover. Qed.
+Print Assumptions C19_full_kPathCover.
 
 Theorem C19_full_regular_MinPathCover : C19_full_statement_regular CMinPathCover.
 Proof. exact full_regular_MinPathCover. Qed.
 Print Assumptions C19_full_regular_MinPathCover.
 
-Theorem C19_full_regular_kPathCoverCycles : C19_full_statement_regular CkPathCoverCycles.
-Proof. exact full_regular_kPathCoverCycles. Qed.
-Print Assumptions C19_full_regular_kPathCoverCycles.
+Theorem C19_full_kPathCoverCycles : C19_full_statement CkPathCoverCycles.
+Proof. exact full_kPathCoverCycles. Qed.
+Print Assumptions C19_full_kPathCoverCycles.
 
 Theorem C19_full_regular_MinPathCoverCycles : C19_full_statement_regular CMinPathCoverCycles.
 Proof. exact full_regular_MinPathCoverCycles. Qed.
@@ -288,11 +286,6 @@ Theorem C19_validate_kFlowDecomp_refuted_all_ignored :
   exists i, in_domain_kFlowDecomp i = false /\ validate_kFlowDecomp i = RaiseOther EOverflow.
 Proof. exact validate_kFlowDecomp_refuted_all_ignored. Qed.
 Print Assumptions C19_validate_kFlowDecomp_refuted_all_ignored.
-(* NodeExpandedDiGraph._get_expanded_subpath_constraints_edges:TypeError:non-tuple-item *)
-Theorem C19_validate_kFlowDecomp_refuted_non_tuple_item :
-  exists i, in_domain_kFlowDecomp i = false /\ validate_kFlowDecomp i = RaiseOther EType.
-Proof. exact validate_kFlowDecomp_refuted_non_tuple_item. Qed.
-Print Assumptions C19_validate_kFlowDecomp_refuted_non_tuple_item.
 (* kFlowDecompCycles:unsolved-not-ValueError:non-conserving-flow (DESIGN #21) *)
 Theorem C19_validate_kFlowDecompCycles_refuted_nonconserving :
   exists i, in_domain_kFlowDecompCycles i = false /\ validate_kFlowDecompCycles i = AcceptsButUnsolved.
@@ -374,6 +367,11 @@ Print Assumptions C19_old_validate_kPathCover_refuted_k0.
 Theorem C19_old_validate_MinErrorFlow_refuted_nonstring_cyclic : exists i, ValidateOld.in_domain_MinErrorFlow i = false /\ ValidateOld.validate_MinErrorFlow i = ValidateOld.Accept.
 Proof. exact ValidateOldRefuted.old_validate_MinErrorFlow_refuted_nonstring_cyclic. Qed.
 Print Assumptions C19_old_validate_MinErrorFlow_refuted_nonstring_cyclic.
+
+(* repaired by 003f186 *)
+Theorem C19_old_validate_kFlowDecomp_refuted_non_tuple_item : exists i, ValidateOld.in_domain_kFlowDecomp i = false /\ ValidateOld.validate_kFlowDecomp i = ValidateOld.RaiseOther ValidateOld.EType.
+Proof. exact ValidateOldRefuted.old_validate_kFlowDecomp_refuted_non_tuple_item. Qed.
+Print Assumptions C19_old_validate_kFlowDecomp_refuted_non_tuple_item.
 
 (* repaired by 65c87ad *)
 Theorem C19_old_accepts_domain_MinPathCoverCycles_refuted_lowerbound_ignores_starts :
